@@ -37,7 +37,7 @@ SPEC = {
 
 MANIFEST = {
     "technique": "differential property-based testing (rapid) of all six KEM and three K-PKE packages against an independent specification-level reference (FIPS 203 / round-3 Kyber, self-tested on ACVP vectors and KAT digests), "
-                 "plus white-box exhaustive enumeration of the 16/32-bit helper functions and generic-vs-AVX2 differential sweeps, run with AVX2 on, AVX2 off and (thorough) purego",
+                 "plus white-box exhaustive enumeration of the 16/32-bit helper functions and generic-vs-AVX2 differential sweeps, run with AVX2 on, AVX2 off, all CPU features off and -tags purego (both tiers)",
     "text": "Generated-input search over (parameter set, seeds d||z, m, ciphertext class, key-byte mutation): ek, dk, ct, K and Decaps(c) of kem/mlkem/mlkem{512,768,1024} and kem/kyber/kyber{512,768,1024} "
             "(scheme API and typed API, generated keys and keys parsed from bytes) and KeyGen/Encrypt/Decrypt of pke/kyber/kyber* must equal byte for byte the output of a slow, obvious reference written from FIPS 203 "
             "(with the four round-3 differences behind a flag). Ciphertext classes include compressed-field boundary patterns and ciphertexts steered, using the secret key, so that the polynomial rounded by decryption "
